@@ -320,7 +320,7 @@ fn run_case(w: &mut World, g: &mut Gen) -> Outcome {
                     };
                     (target - now).max(0)
                 }
-                _ => 60_000,
+                _ => 0,
             },
             _ => 600_000_000,
         };
@@ -355,6 +355,9 @@ fn run_case(w: &mut World, g: &mut Gen) -> Outcome {
             if m.recovery[R].is_some() && m.timer_running {
                 live.push(Call::Timed);
                 live.push(Call::Timed);
+            }
+            if m.recovery[R].is_some() && ctl.delay.is_some() && !m.timer_running {
+                live.push(Call::Timed); // after a stop
             }
             if !live.is_empty() {
                 call = *g.pick(&live);
@@ -483,6 +486,64 @@ fn run_case(w: &mut World, g: &mut Gen) -> Outcome {
                     format!("AccessController::{}: a documented happy path fails", call.method()),
                     format!("{}; the proposal is pending, was made by its role, the same proposal is passed and the confirmer / the timer qualifies; outcome {}", ctx!(), run.outcome_string()),
                 );
+            }
+            // which adversarial situations were refused (classification only)
+            match call {
+                Call::QuickRecovery(a) => match &m.recovery[a] {
+                    Some(p) => {
+                        let second = call.template().iter().any(|b| satisfied(&m.rules, env, &presented, *b));
+                        if same(p) && !second && satisfied(&m.rules, env, &presented, a) {
+                            g.label("refused: quick confirm by the proposing role itself");
+                        } else if !same(p) && second {
+                            g.label("refused: quick confirm carrying a different proposal");
+                        } else if same(p) && !second {
+                            g.label("refused: quick confirm without any qualifying badge");
+                        }
+                    }
+                    None => {
+                        if ever_recovery[a] {
+                            g.label("refused: quick confirm of a cancelled / superseded proposal");
+                        }
+                    }
+                },
+                Call::QuickWithdraw(a) => match m.withdraw[a] {
+                    Some(_) => {
+                        if !call.template().iter().any(|b| satisfied(&m.rules, env, &presented, *b)) {
+                            g.label("refused: badge withdraw confirm without a second role");
+                        }
+                    }
+                    None => {
+                        if ever_withdraw[a] {
+                            g.label("refused: confirm of a cancelled / superseded badge withdraw");
+                        }
+                    }
+                },
+                Call::Timed => match &m.recovery[R] {
+                    Some(p) if same(p) => {
+                        if ctl.delay.is_none() {
+                            g.label("refused: timed confirm on a controller without timed recovery");
+                        } else if !m.timer_running {
+                            g.label("refused: timed confirm after stop");
+                        } else if !timer_elapsed(p) {
+                            g.label("refused: timed confirm before the delay has elapsed");
+                            if minute(now) + 1 == minute(p.at_ms) + ctl.delay.unwrap() as i64 {
+                                g.label("refused: timed confirm in the last minute before the boundary");
+                            }
+                        }
+                    }
+                    Some(_) => g.label("refused: timed confirm carrying a different proposal"),
+                    None => {
+                        if ever_recovery[R] {
+                            g.label("refused: timed confirm of a cancelled / superseded proposal");
+                        }
+                    }
+                },
+                Call::CreateProof => {
+                    if m.locked && satisfied(&m.rules, env, &presented, P) {
+                        g.label("refused: create_proof while the primary role is locked");
+                    }
+                }
+                _ => {}
             }
             continue;
         }
@@ -690,6 +751,6 @@ pub fn check() -> Check {
     .assume("time is compared at minute precision, as the ledger clock the blueprint reads (TimePrecision::Minute) provides it")
     .assume("timed_confirm_recovery is a public method in the role template: the caller of a timed confirm is unconstrained, only the proposal must be the recovery role's own")
     .assume("only the v2 blueprint code (the one the latest protocol version dispatches to) is exercised; v1/state_machine.rs differs from v2 only in the substate type name")
-    .part(Part::new("history", 6_000, 300_000, 400, case))
+    .part(Part::new("history", 3_000, 150_000, 400, case))
     .min_nontrivial_pct(15.0)
 }
